@@ -406,3 +406,66 @@ fn reader_run_inner(stream: &[u8], block: Option<usize>, sched: &Sched, judge: J
 pub fn encode_record(payload: &[u8]) -> Vec<u8> {
     refcodec::encode(payload, refcodec::PROD_FIRST, refcodec::PROD_LATER)
 }
+
+
+/// Two StreamReaders alive at once, each over its own stream, asked for records alternately: each
+/// must return exactly the records of its own stream (state kept outside the objects - a static or
+/// thread-local buffer, cursor or cache in the chunker, the decoder or the arena - shows here only).
+pub fn twin_reader_run(a: &[u8], b: &[u8], block: Option<usize>) -> Result<usize, String> {
+    let r = catch(|| twin_reader_inner(a, b, block));
+    owning_iovec::verif::drain_quarantine();
+    match r {
+        Ok(r) => r,
+        Err(p) => Err(format!("panic: {}", p)),
+    }
+}
+
+fn twin_reader_inner(a: &[u8], b: &[u8], block: Option<usize>) -> Result<usize, String> {
+    let live0 = live();
+    let judge = Judge::Std(usize::MAX, None);
+    let wants = [reference_records(a, judge), reference_records(b, judge)];
+    let mut readers = [StreamReader::new(), StreamReader::new()];
+    let full = Sched::Full;
+    let mut sources = [ScriptReader::new(a, &full), ScriptReader::new(b, &full)];
+    let mut gots: [Vec<(Vec<u8>, std::ops::Range<u64>)>; 2] = [Vec::new(), Vec::new()];
+    let mut done = [false, false];
+    let cap = a.len() + b.len() + 16;
+    let mut rounds = 0;
+    while !(done[0] && done[1]) {
+        rounds += 1;
+        if rounds > cap {
+            return Err("[content] two readers used alternately: more records than bytes".into());
+        }
+        for i in 0..2 {
+            if done[i] {
+                continue;
+            }
+            let r = readers[i].next_record_bytes(&mut sources[i], StreamReader::chunk_judge(usize::MAX, None), block).map_err(|e| format!("next_record_bytes failed: {}", e))?;
+            match r {
+                None => done[i] = true,
+                Some((iov, range)) => {
+                    for s in iov.stable_prefix() {
+                        if !owning_iovec::verif::is_live(s.as_ptr() as usize, s.len()) {
+                            return Err(format!("[live] two readers used alternately: a record slice of reader {} points outside every live arena chunk", if i == 0 { "A" } else { "B" }));
+                        }
+                    }
+                    let bytes = iov.flatten().map_err(|_| "record iovec has a pending placeholder".to_string())?;
+                    gots[i].push((bytes, range));
+                }
+            }
+        }
+    }
+    let show = |v: &Vec<(Vec<u8>, std::ops::Range<u64>)>| if v.is_empty() { "none".to_string() } else { v.iter().map(|(b, r)| format!("[{}]@{}..{}", hex(b), r.start, r.end)).collect::<Vec<_>>().join(" ") };
+    for i in 0..2 {
+        if gots[i] != wants[i] {
+            return Err(format!("[content] two readers used alternately: reader {} returned: {} ; the records of its own stream are: {}", if i == 0 { "A" } else { "B" }, show(&gots[i]), show(&wants[i])));
+        }
+    }
+    let n = gots[0].len() + gots[1].len();
+    drop(readers);
+    let live1 = live();
+    if live1 != live0 {
+        return Err(format!("[leak] arena leak: live (chunks, bytes) {:?} -> {:?}", live0, live1));
+    }
+    Ok(n)
+}
